@@ -8,11 +8,13 @@ Theorem C20_correct :
     parse_age req = AOk nn -> held_wf held ->
     exists r, nearest req held = AOk r /\ nearest_spec nn held r.
 Proof. exact (@nearest_correct). Qed.
+Print Assumptions C20_correct.
 
 Theorem C20_unchanged :
   forall (A : Type) (req : bytes) (held : list (@entry A)) (c : @entry A),
     nearest req held = AOk (Some c) -> In c held.
 Proof. exact (@nearest_unchanged). Qed.
+Print Assumptions C20_unchanged.
 
 Theorem C20_answers_request :
   forall (A : Type) (req : bytes) (held : list (@entry A)) (c : @entry A),
@@ -20,14 +22,17 @@ Theorem C20_answers_request :
     exists nn n, parse_age req = AOk nn /\ parse_age (e_id c) = AOk n /\
       ((e_val c = CBool true /\ nn <= n) \/ (e_val c <> CBool true /\ n <= nn)).
 Proof. exact (@nearest_answers). Qed.
+Print Assumptions C20_answers_request.
 
 Theorem C20_malformed_rejected :
   forall (A : Type) (req : bytes) (held : list (@entry A)) (e : age_err),
     parse_age req = AErr e -> nearest req held = AErr e.
 Proof. exact (@nearest_malformed_request). Qed.
+Print Assumptions C20_malformed_rejected.
 
 Theorem C20_age_is_u8 : forall id n, parse_age id = AOk n -> n <= 255.
 Proof. exact parse_age_u8. Qed.
+Print Assumptions C20_age_is_u8.
 
 (* non-vacuity: a concrete held set meeting the hypotheses, with each of the three outcomes *)
 Definition ex_held : list (@entry N) :=
